@@ -39,7 +39,7 @@ type serverHandshakeStateGM struct {
 func (c *Conn) serverHandshakeGM() error {
 	// If this is the first server handshake, we generate a random key to
 	// encrypt the tickets with.
-	c.config.serverInitOnce.Do(func() { c.config.serverInit(nil) })
+	c.config.ensureTicketKeys(nil)
 
 	hs := serverHandshakeStateGM{
 		c: c,
@@ -130,7 +130,7 @@ func (hs *serverHandshakeStateGM) readClientHello() (isResume bool, err error) {
 			c.sendAlert(alertInternalError)
 			return false, err
 		} else if newConfig != nil {
-			newConfig.serverInitOnce.Do(func() { newConfig.serverInit(c.config) })
+			newConfig.ensureTicketKeys(c.config)
 			c.config = newConfig
 		}
 	}
